@@ -531,6 +531,19 @@ def run(chk: Check):
             # another layout (state kept per field set or per class instead of per store shows here)
             cases.append(U.gen_case(chk.rng, f'c03s{chk.seed}_{k}b', force={'sets': c['sets'], 'fs_uid': c['uid']}))
             chk.count('special:second-store-same-field-sets')
+    # species that appear only AFTER the first record, on the write paths that do not go through add():
+    # create_associated (the mapped result for trajectory k > 0 has a species the first result lacked) and save() of an
+    # in-memory store whose species sets grow.  Either refused by name or read back exactly — never silently fewer.
+    for layout in ('mapped', 'saved'):
+        got, tries = 0, 0
+        while got < 5 and tries < 200:
+            tries += 1
+            c = U.gen_case(chk.rng, f'c03g{chk.seed}_{layout}_{tries}', force={'layout': layout, 'out_of_dim': True})
+            if c['out_of_dim'] and (layout != 'mapped' or c.get('ood_set') in c['apart']) and \
+                    not any(f['shape'] == 'TP' and f['dtype'] == 'str' for fs in c['sets'] for f in fs['fields']):
+                cases.append(c)
+                got += 1
+                chk.count(f'special:species-grow-after-first-record:{layout}')
     check_cases(chk, cases, fixed)
     per_trajectory_string_hole(chk)
     two_open_stores(chk)
